@@ -178,7 +178,9 @@ impl HasShapeType for Polyline {
 impl ConcreteReadableShape for Polyline {
     fn read_shape_content<T: Read>(source: &mut T, record_size: i32) -> Result<Self, Error> {
         let rdr = MultiPartShapeReader::<Point, T>::new(source)?;
-        if record_size != Self::size_of_record(rdr.num_points, rdr.num_parts) as i32 {
+        let record_size =
+            usize::try_from(record_size).map_err(|_| Error::InvalidShapeRecordSize)?;
+        if record_size != Self::size_of_record(rdr.num_points, rdr.num_parts) {
             Err(Error::InvalidShapeRecordSize)
         } else {
             rdr.read_xy().map_err(Error::IoError).map(|rdr| Self {
@@ -253,9 +255,10 @@ impl ConcreteReadableShape for PolylineM {
     fn read_shape_content<T: Read>(source: &mut T, record_size: i32) -> Result<Self, Error> {
         let rdr = MultiPartShapeReader::<PointM, T>::new(source)?;
 
-        let record_size_with_m = Self::size_of_record(rdr.num_points, rdr.num_parts, true) as i32;
-        let record_size_without_m =
-            Self::size_of_record(rdr.num_points, rdr.num_parts, false) as i32;
+        let record_size =
+            usize::try_from(record_size).map_err(|_| Error::InvalidShapeRecordSize)?;
+        let record_size_with_m = Self::size_of_record(rdr.num_points, rdr.num_parts, true);
+        let record_size_without_m = Self::size_of_record(rdr.num_points, rdr.num_parts, false);
 
         if (record_size != record_size_with_m) && (record_size != record_size_without_m) {
             Err(Error::InvalidShapeRecordSize)
@@ -342,9 +345,10 @@ impl ConcreteReadableShape for PolylineZ {
     fn read_shape_content<T: Read>(source: &mut T, record_size: i32) -> Result<Self, Error> {
         let rdr = MultiPartShapeReader::<PointZ, T>::new(source)?;
 
-        let record_size_with_m = Self::size_of_record(rdr.num_points, rdr.num_parts, true) as i32;
-        let record_size_without_m =
-            Self::size_of_record(rdr.num_points, rdr.num_parts, false) as i32;
+        let record_size =
+            usize::try_from(record_size).map_err(|_| Error::InvalidShapeRecordSize)?;
+        let record_size_with_m = Self::size_of_record(rdr.num_points, rdr.num_parts, true);
+        let record_size_without_m = Self::size_of_record(rdr.num_points, rdr.num_parts, false);
 
         if (record_size != record_size_with_m) && (record_size != record_size_without_m) {
             Err(Error::InvalidShapeRecordSize)
